@@ -130,6 +130,13 @@ def bases(tier):
                         [["dataset", None, {}, [["title", "one two three", {}, []], ["creator", None, {}, [["organizationName", "O", {}, []]]]]]]])
     g_["orphan_links"] = True          # children listed through the children property: no back links
     out.append(("children-without-parent-links", gtree.assign_ids(g_), 3))
+    # values one step away from what a rule lists (letter case, padding) and white-space-only tails on every node
+    g_ = from_listspec(["access", None, {"authSystem": "a", "order": "allowfirst", "scope": "Document"},
+                        [["allow", None, {}, [["principal", "public ", {}, []], ["permission", "changepermission", {}, []]]],
+                         ["deny", None, {}, [["principal", "x", {}, []], ["permission", "READ", {}, []], ["permission", " read", {}, []]]]]])
+    for i_, (_, n_) in enumerate(gtree.walk(g_)):
+        n_["tail"] = ["\n  ", " ", "\t", "\n"][i_ % 4]
+    out.append(("near-miss-enum-values+blank-tails", gtree.assign_ids(g_), 3))
     # invalid trees (validators take their error branches)
     out.append(("invalid:unknown", gtree.assign_ids(from_listspec(
         ["dataset", "oops", {"zz": "1"}, [["zzUnknown", "x", {}, [["title", None, {}, []]]], ["title", None, {}, []],
@@ -285,6 +292,11 @@ def op_eml_xml(c):
     return _call(lambda: export.to_xml(c.root))
 
 
+def op_to_xml_each(c):
+    # every node exported as the outermost element of a document of its own
+    return [(_call(lambda n=n: metapype_io.to_xml(n)), _call(lambda n=n: export.to_xml(n))) for n in c.nodes[:60]]
+
+
 def op_graph(c):
     return _call(lambda: metapype_io.graph(c.root))
 
@@ -419,6 +431,7 @@ OPS = [
     ("evaluate.tree", op_evaluate_tree), ("evaluate.node*", op_evaluate_node),
     ("metapype_io.to_json", op_to_json), ("metapype_io.to_json(indent)", op_to_json_indent), ("mp_io.to_json", op_legacy_json),
     ("metapype_io.to_xml", op_to_xml), ("export.to_xml", op_eml_xml),
+    ("to_xml(every node as a document root)*", op_to_xml_each),
     ("metapype_io.graph", op_graph), ("mp_io.graph", op_legacy_graph), ("str/repr/object*", op_str),
     ("find_child/find_all_children*", op_find_children), ("find_descendant/find_all_descendants*", op_find_descendants),
     ("find_*_by_path*", op_paths), ("child_index/get_ancestry*", op_child_index_ancestry),
